@@ -262,6 +262,21 @@ fn vis_str(v: &syn::Visibility) -> String {
     nospace(v)
 }
 
+thread_local! {
+    /// lenient extraction: an enum impl that is not in the modelled shape gives a `gqlenum` item with
+    /// EMPTY match tables instead of an error (used only to keep a case alive for the oracles that run on
+    /// the compiled implementation after the model tie has already been reported as broken)
+    static LENIENT: std::cell::Cell<bool> = const { std::cell::Cell::new(false) };
+}
+
+/// Like `extract`, but string-enum impls outside the modelled shape do not abort the extraction.
+pub fn extract_lenient(tokens: &str) -> Result<Vec<ExtractedModule>, String> {
+    LENIENT.with(|l| l.set(true));
+    let r = extract(tokens);
+    LENIENT.with(|l| l.set(false));
+    r
+}
+
 pub struct ExtractedModule {
     pub sexp: Sexp,
     pub mod_name: String,
@@ -344,8 +359,18 @@ fn extract_mod(
                     ));
                 } else if let Some(imps) = impls.get(&name) {
                     let mut acc = EnumImpls { serde_path: String::new(), ser: vec![], de: vec![], ser_other: false, de_other: false };
+                    let mut impl_unmodelled = false;
                     for imp in imps {
-                        enum_impl(imp, &name, &mut acc)?;
+                        if let Err(e) = enum_impl(imp, &name, &mut acc) {
+                            if LENIENT.with(|l| l.get()) {
+                                impl_unmodelled = true;
+                            } else {
+                                return Err(e);
+                            }
+                        }
+                    }
+                    if impl_unmodelled {
+                        acc = EnumImpls { serde_path: String::new(), ser: vec![], de: vec![], ser_other: true, de_other: true };
                     }
                     let mut vs: Vec<String> = Vec::new();
                     let mut has_other = false;
